@@ -123,6 +123,14 @@ def _make_op(src):
         o = gen.as_op(w, kwargs=kw, output_folder=rng.random() < 0.2)
         o["sid"] = "gen:%d" % src[1]
         return o, False
+    if src[0] == "sample":
+        # rows homogeneous except for a few odd ones (see c33.sampling_workload): anything the engine decides
+        # from a bounded probe of a stored table depends on the table's physical order
+        from . import c33
+
+        o = c33.sampling_workload(random.Random(src[1]))
+        o["sid"] = "sample:%d" % src[1]
+        return o, True
     if src[0] == "big":
         rng = random.Random(src[1])
         o = big_workload(rng, src[2])
@@ -251,7 +259,7 @@ def task_minimise(task):
     op, variants, inv = task["op"], task["variants"], task["invariant"]
     from ..parser_standin import shim
 
-    if op.get("meta", {}) and (op.get("meta") or {}).get("big"):
+    if (op.get("meta") or {}).get("big") or (op.get("meta") or {}).get("sampling"):
         return {"op": op}
 
     def sf(o):
@@ -276,14 +284,14 @@ def run(ctx):
     items += [("corpus", e) for e in rng.sample(cps, min(n_corpus, len(cps)))]
     bigs = [("big", rng.randrange(1 << 30), rng.choice([5000, 20000, 150000] if quick else [20000, 100000, 150000, 300000])) for _ in range(6 if quick else 120)]
     rng.shuffle(items)
-    items = bigs + items
+    items = bigs + [("sample", rng.randrange(1 << 30)) for _ in range(4 if quick else 120)] + items
     size = 5
     tasks = [{"items": items[i:i + size]} for i in range(0, len(items), size)]
     # hash-seed differential (fresh interpreters): a few batches
     hs_items = [it for it in items if it[0] == "gen"][: (12 if quick else 300)]
     hs_tasks = [{"items": hs_items[i:i + 6], "hashseed": rng.choice([1, 7, 12345, 4242])} for i in range(0, len(hs_items), 6)]
-    hs_done = ctx.map("task_hashseed", hs_tasks, budget_s=ctx.budget_s * 0.25)
-    done = ctx.map("task_batch", tasks, budget_s=ctx.budget_s * 0.6)
+    hs_done = ctx.map("task_hashseed", hs_tasks, budget_s=ctx.budget_s * 0.25, min_tasks=1)
+    done = ctx.map("task_batch", tasks, budget_s=ctx.budget_s * 0.6, min_tasks=16)
     violations, samples, nontriv = [], [], 0
     n_eval = n_scripts = n_valid = n_skipped = n_raised = n_big = 0
     knob_hits = {}
